@@ -5,3 +5,8 @@
 
 /// Mapped-address maps and classification.
 pub use crate::socket::mapped_addrs::verif_hooks as mapped_addrs;
+/// Net report aggregation (`Report::update`, `RelayLatencies`) and the report history.
+#[cfg(all(not(wasm_browser), with_crypto_provider))]
+pub use crate::net_report::verif_hooks as net_report;
+/// Transports: relay receive path without actor, send routing decisions.
+pub use crate::socket::transports::verif_hooks as transports;
